@@ -33,6 +33,7 @@ struct MiniEngine {
     std::function<J(std::uint64_t seed, int tier, long index)> gen;
     std::function<MiniOutcome(const J&)> run;
     std::function<std::vector<J>(const J&)> shrinks; // smaller candidates
+    int cpu_limit = 20; // CPU seconds one run may take (a spinning run is a crash)
 };
 
 inline double mini_now() {
@@ -58,7 +59,7 @@ inline MiniProbe mini_probe(const MiniEngine& e, const J& c) {
         close(fds[0]);
         close(efds[0]);
         dup2(efds[1], 2);
-        cpu_alarm(300);
+        cpu_alarm(e.cpu_limit);
         MiniOutcome o = e.run(c);
         J j = J::obj();
         j.set("key", o.key);
@@ -179,7 +180,7 @@ inline int mini_run(
                 fprintf(out, "S %ld\n", k);
                 fflush(out);
                 J c = e.gen(seed_of(k), tier, k);
-                cpu_alarm(300);
+                cpu_alarm(e.cpu_limit);
                 MiniOutcome o = e.run(c);
                 cpu_alarm(0);
                 for (auto& kv : o.counters)
@@ -288,7 +289,7 @@ inline int mini_run(
                 out.set("gate", "nondeterministic");
             } else {
                 // greedy minimisation
-                int budget = 300;
+                int budget = first.key.find("signal-27") != std::string::npos ? 15 : 300;
                 bool progress = true;
                 while (progress && budget > 0) {
                     progress = false;
